@@ -34,6 +34,7 @@ type FuncSpec struct {
 	JSON    bool  `json:"json,omitempty"`
 	NeedContract bool `json:"need_contract,omitempty"`
 	RecvNonNil   bool `json:"recv_nonnil,omitempty"`
+	Closures     bool `json:"closures,omitempty"`
 }
 
 // Bounded is a labelled bounded stand-in (never counted as proved).
@@ -156,6 +157,9 @@ func CmdCheck(args []string) int {
 		for _, fn := range fns {
 			if seen[ShortName(fn)] || len(fn.Blocks) == 0 {
 				continue
+			}
+			if strings.Contains(ShortName(fn), "$") && strings.HasSuffix(f.Pattern, "*") && !strings.Contains(f.Pattern, "$") && !f.Closures {
+				continue // closures are verified inline in their parent unless asked for
 			}
 			seen[ShortName(fn)] = true
 			if f.NeedContract && w.Contracts[ShortName(fn)] == nil {
